@@ -89,6 +89,9 @@ type Controller struct {
 	// execCtx is the controller execute context
 	// nil until resolved
 	execCtx context.Context
+	// tptHandler is the transport handler of the running execution
+	// nil until resolved
+	tptHandler *transportHandler
 	// peerID is the local peer id.
 	// empty until tpt is constructed
 	peerID peer.ID
@@ -195,6 +198,7 @@ func (c *Controller) Execute(ctx context.Context) error {
 	// set hadles
 	c.bcast.HoldLock(func(broadcast func(), getWaitCh func() <-chan struct{}) {
 		c.execCtx = execCtx
+		c.tptHandler = handler
 		c.peerID = localPeerID
 		c.tpt = tpt
 		broadcast()
@@ -204,6 +208,7 @@ func (c *Controller) Execute(ctx context.Context) error {
 	defer func() {
 		c.bcast.HoldLock(func(broadcast func(), getWaitCh func() <-chan struct{}) {
 			c.execCtx = nil
+			c.tptHandler = nil
 			c.peerID = ""
 			c.tpt = nil
 			for _, link := range c.links {
